@@ -2,7 +2,7 @@
    signature so that a single small OCaml driver (or a generated cases.v) can run
    them:  dispatch id scalars coords indices : option (list Q). *)
 From Coq Require Import List ZArith QArith Bool.
-Require Import Cox.Num.Ops Cox.Geo.Vec Cox.Model.Mesh Cox.Model.Polygon Cox.Model.Inside Cox.Model.Curved Cox.Model.Structure Cox.Model.Balls.
+Require Import Cox.Num.Ops Cox.Geo.Vec Cox.Model.Mesh Cox.Model.Polygon Cox.Model.Inside Cox.Model.Curved Cox.Model.Structure Cox.Model.Balls Cox.Model.Simple.
 Import ListNotations.
 
 Fixpoint group3 (l : list Q) : list (vec3 Q) :=
@@ -175,6 +175,10 @@ Section Entries.
     | None => [0]
     | Some xr => [1] ++ v3l (fst xr) ++ [snd xr]
     end.
+
+  (* 47: simplicity of a planar cycle. qs = (x y ...) -> [simple; has_duplicates] *)
+  Definition e_simple (qs : list Q) : list Q :=
+    let V := group2 qs in [b2q (simple_bf O V); b2q (has_duplicates O V); b2q (proper_cross_bf O V); b2q (touch_bf O V)].
 End Entries.
 
 Definition dispatch (f : nat) (sc qs : list Q) (idx : list (list nat)) : option (list Q) :=
@@ -198,5 +202,6 @@ Definition dispatch (f : nat) (sc qs : list Q) (idx : list (list nat)) : option 
   | 41 => Some (e_edge_data qs idx)
   | 45 => Some (e_balls sc qs idx)
   | 46 => Some (e_circum sc qs)
+  | 47 => Some (e_simple qs)
   | _ => None
   end%nat.
